@@ -7,7 +7,8 @@
    not Calico-reserved. *)
 From Coq Require Import List NArith Bool.
 From Verif.Common Require Import Labels Packet.
-From Verif.C29 Require Import Model Spec ProofsSel ProofsPorts ProofsMain Proofs.
+From Coq Require Import Sorting.Permutation.
+From Verif.C29 Require Import Model Spec ProofsSel ProofsPorts ProofsMain ProofsOrder ProofsValid Proofs.
 Import ListNotations.
 Open Scope N_scope.
 
@@ -16,11 +17,21 @@ Open Scope N_scope.
    address, IPv4/IPv6; protocol; destination port): the converted Calico policies allow the connection exactly
    when the Kubernetes semantics do (egress at the source pod AND ingress at the destination pod). *)
 Theorem c29_same_meaning : forall infer nps cl c,
+  forallb k8s_np_valid nps = true ->                 (* they are NetworkPolicies: accepted by the Kubernetes API validation *)
+  forallb np_keys_ok nps = true ->                   (* no selector uses a Calico-reserved label key *)
+  forallb (types_defaulted infer) nps = true ->      (* pinned tree (infer=false): policyTypes present or no egress rules *)
+  cal_allows (map (conv_np_v infer) nps) (cparty_of cl (c_src c)) (cparty_of cl (c_dst c)) (c_proto c) (c_dport c)
+  = k8s_allows nps cl c.
+Proof. exact same_meaning_valid. Qed.
+Print Assumptions c29_same_meaning.
+
+(* the same with the combined well-formedness predicate np_ok (slightly weaker hypotheses) *)
+Theorem c29_same_meaning_np_ok : forall infer nps cl c,
   forallb (np_ok infer) nps = true ->
   cal_allows (map (conv_np_v infer) nps) (cparty_of cl (c_src c)) (cparty_of cl (c_dst c)) (c_proto c) (c_dport c)
   = k8s_allows nps cl c.
 Proof. exact same_meaning. Qed.
-Print Assumptions c29_same_meaning.
+Print Assumptions c29_same_meaning_np_ok.
 
 (* per direction and per local pod (ingress and egress separately) *)
 Theorem c29_same_meaning_dir : forall infer nps cl dir p c,
@@ -90,6 +101,15 @@ Print Assumptions c29_protocol_grouping.
 Theorem c29_converted_allow_only : forall ingress ns rs cr, In cr (conv_rules ingress ns rs) -> cr_action cr = CAllow.
 Proof. exact conv_rules_allow. Qed.
 Print Assumptions c29_converted_allow_only.
+
+(* ordering of the converted policies: all get tier "default" and Order 1000 (checked structurally by the
+   correspondence run); in whatever order Felix evaluates them the verdict is the Kubernetes verdict *)
+Theorem c29_order_irrelevant : forall infer nps qs cl c,
+  forallb (np_ok infer) nps = true ->
+  Permutation qs (map (conv_np_v infer) nps) ->
+  cal_allows qs (cparty_of cl (c_src c)) (cparty_of cl (c_dst c)) (c_proto c) (c_dport c) = k8s_allows nps cl c.
+Proof. exact order_irrelevant. Qed.
+Print Assumptions c29_order_irrelevant.
 
 (* The hypotheses beyond API validation are necessary: *)
 (* (1) pinned tree: a policy without policyTypes but with egress rules is converted to an ingress-only policy,
